@@ -123,6 +123,11 @@ def build(ch, with_options=True):
             c.trcl = make_tr(d, utrcl, 'number', 6)
     if depth >= 2:
         u1[1].mat = 0; u1[1].fill = 2; u1[1].filltr = make_tr(d, t2, 'inline', 5)
+        if ncell == 3:
+            # universe 2 reused by a second cell of universe 1 (reuse below level 0)
+            t2b = ch.choose('t2b', ['no-reuse', 'none', 't2', 'rz90', 'rz90b', 'id'])
+            if t2b != 'no-reuse':
+                u1[2].mat = 0; u1[2].fill = 2; u1[2].filltr = make_tr(d, t2b, 'number', 3)
     for c in u1:
         d.add_cell(c)
     if depth >= 2:
